@@ -279,7 +279,7 @@ func wholeCall(s string) bool {
 	for j := i; j < len(s); j++ {
 		ch := s[j]
 		if inStr != 0 {
-			if ch == '\\' && inStr == '"' {
+			if ch == '\\' && inStr != '`' {
 				j++
 			} else if ch == inStr {
 				inStr = 0
@@ -287,7 +287,7 @@ func wholeCall(s string) bool {
 			continue
 		}
 		switch ch {
-		case '"', '`':
+		case '"', '`', '\'':
 			inStr = ch
 		case '(':
 			depth++
@@ -493,7 +493,7 @@ func indexTop(s, sep string) int {
 	for i := 0; i < len(s); i++ {
 		ch := s[i]
 		if inStr != 0 {
-			if ch == '\\' {
+			if ch == '\\' && inStr != '`' {
 				i++
 			} else if ch == inStr {
 				inStr = 0
@@ -961,7 +961,7 @@ func splitTop(s, sep string) []string {
 	for i := 0; i < len(s); i++ {
 		ch := s[i]
 		if inStr != 0 {
-			if ch == '\\' {
+			if ch == '\\' && inStr != '`' {
 				i++
 			} else if ch == inStr {
 				inStr = 0
